@@ -538,7 +538,18 @@ func ruleWRSyms(p *Prog, r *Reporter) {
 		}
 		uses := 0
 		bad := ""
-		for _, b := range fn.Blocks {
+		// the method and the helpers of the table it delegates to (one level)
+		scope := []*ssa.Function{fn}
+		for _, c := range callsIn(fn) {
+			if h := c.Common().StaticCallee(); h != nil && h != fn && h.Blocks != nil && h.Signature.Recv() != nil && fn.Signature.Recv() != nil && types.Identical(deref(h.Signature.Recv().Type()), deref(fn.Signature.Recv().Type())) {
+				scope = append(scope, h)
+			}
+		}
+		var blocks []*ssa.BasicBlock
+		for _, f2 := range scope {
+			blocks = append(blocks, f2.Blocks...)
+		}
+		for _, b := range blocks {
 			for _, in := range b.Instrs {
 				bo, ok := in.(*ssa.BinOp)
 				if !ok {
